@@ -16,6 +16,7 @@
 // moves values as long double (which holds short/int/int64_t/half/float/double exactly); all checking code is
 // written once against that interface.
 #include "vpbt.h"
+#include <cstring>
 #include "oracles.h"
 #include "gens.h"
 #include <ImathBox.h>
@@ -862,7 +863,10 @@ static void unary_model (vp::Ctx& c, IBox& B, const LDb* mn, const LDb* mx, bool
     for (int i = 0; i < D; ++i)
     {
         if (!e && mx[i] - mn[i] > B.maxv) size_ok = false;
-        if (mx[i] + mn[i] > B.maxv || mx[i] + mn[i] < B.lowest) center_ok = false;
+        // Interval<short>::center() evaluates (max + min) / 2 in int (integral promotion): the sum cannot overflow
+        // and the centre is always representable, so it is defined over the whole range of short.
+        bool promoted_interval = B.integral && !strcmp (B.fam, "interval") && B.maxv <= 32767;
+        if (!promoted_interval && (mx[i] + mn[i] > B.maxv || mx[i] + mn[i] < B.lowest)) center_ok = false;
     }
     if (e) center_ok = false; // the centre of an empty box is documented as undefined
     if (size_ok)
